@@ -40,4 +40,16 @@ func init() {
 			}
 		}
 	}
+	// the bytes at the edges of the identifier classes directly behind a `$` in an interpolating string: a letter, `_` or a
+	// byte >= 0x80 starts a variable name, anything else leaves the `$` as text
+	for _, b := range []byte{'0', '9', 'a', 'z', 'A', 'Z', '_', 0x7f, 0x80, 0xff, '/', ':', '@', '[', '`', ' '} {
+		start := b == '_' || b >= 'a' && b <= 'z' || b >= 'A' && b <= 'Z' || b >= 0x80
+		for _, f := range []struct{ open, close, kind, tail string }{{`"`, `"`, "ScalarEncapsed", ""}, {"<<<A\n", "\nA", "ScalarHeredoc", " part:\n"}} {
+			want := f.kind + "(Parts:[part:x$" + string([]byte{b}) + "y  $c" + f.tail + "])"
+			if start {
+				want = f.kind + "(Parts:[part:x $" + string([]byte{b}) + "y part:  $c" + f.tail + "])"
+			}
+			Schemas = append(Schemas, Schema{f.open + "x$" + string([]byte{b}) + "y $c" + f.close + ";", "sx", want, ""})
+		}
+	}
 }
